@@ -1055,3 +1055,56 @@ func c19privilegeIsABitSet(c *an.Ctx) {
 	f.PredShape(r, 0, "`recv.Admin` | `recv.Rwuser` | `influxql.NoPrivileges==p0` | (`recv.Privileges[p1]#1` & (`p0==recv.Privileges[p1]#0` | `influxql.AllPrivileges==recv.Privileges[p1]#0`))",
 		"privileges are compared for identity (or ALL), never by order")
 }
+
+func init() {
+	old := All["C19"].Run
+	All["C19"].Run = func(c *an.Ctx) {
+		old(c)
+		c19cachedAnswersAreAuthorised(c)
+	}
+	All["C19"].Rules += " R14"
+	addLevel("C19", "a PromQL answer is written only after the user was authorised for the database — also when it comes out of the result cache (the cache key carries no user).")
+}
+
+// c19cachedAnswersAreAuthorised — C19.R14.  servePromBaseQuery authorises inside execQuery (the
+// transpiled statement is checked against the user's privileges).  The result cache answers a
+// full hit without calling execQuery, and its key is (measurement, database, policy, query, step,
+// interval) — no user.  Every path to a written response must therefore pass an authorisation:
+// execQuery, checkAuthorization, or a database-level check of the user.
+func c19cachedAnswersAreAuthorised(c *an.Ctx) {
+	const H = "lib/util/lifted/influx/httpd"
+	r := c.Rule("C19.R14", "K-ORDER", H+":(*Handler).servePromBaseQuery — every written PromQL response is preceded by an authorisation of the user for the database (execQuery, checkAuthorization or AuthorizeDatabase), unless authentication is off or no user exists")
+	f := fn(r, H+":Handler.servePromBaseQuery")
+	if f == nil {
+		return
+	}
+	authz := an.Union(
+		f.Find(call(r, H+":Handler.execQuery")),
+		f.Find(call(r, H+":Handler.checkAuthorization")),
+		f.Find(an.MCallNamed("AuthorizeDatabase", `.*`)),
+		f.Find(an.MCallNamed("AuthorizeQuery", `.*`)),
+	)
+	wr := f.Find(an.MCallNamed("WritePromResponse", `.*`))
+	r.AddSites(authz.Len() + wr.Len())
+	if wr.Len() == 0 || authz.Len() == 0 {
+		if !r.Failed() {
+			r.Fail(f.Name+": shape", c.P.Pos(f.Body.Pos()), "expected the writes of the response and an authorisation (found %d / %d)", wr.Len(), authz.Len())
+		}
+		return
+	}
+	// the query is authorised inside execQuery before it is executed
+	if g := fn(r, H+":Handler.execQuery"); g != nil {
+		ca := g.Find(call(r, H+":Handler.checkAuthorization"))
+		ex := g.Find(an.MCallNamed("ExecuteQuery", `.*`))
+		if !r.Failed() && ex.Len() > 0 {
+			g.Precedes(r, ca, ex, an.OrderOpt{Success: true, Label: "checkAuthorization(success) ≺ ExecuteQuery"})
+		}
+	}
+	off := f.EdgesImplyingAny(an.AtomLike(`^recv\.Config\.AuthEnabled$`, false), an.AtomLike(`^nil==p2$`, true))
+	// an authorisation call inside a condition guards its true/false edges: the vertex itself is the cut
+	for _, s := range wr.List {
+		if p := f.FPath([]int{f.G.Entry}, s.V, authz.Vs(), off); p != nil {
+			r.Fail(f.Name+": response written without authorisation", c.P.Pos(s.Node.Pos()), "a PromQL response is written on a path that passes no authorisation of the user for the database (a full hit of the result cache answers without calling execQuery, and the cache key has no user in it); path (lines): %s", f.DescribePath(p))
+		}
+	}
+}
